@@ -25,6 +25,10 @@ RULE = (
     "small-container histories up to length 5. After EVERY operation all "
     "public queries are compared with the model. non-trivial = >=1 mutating "
     "op and >=1 comparison; distinct = (container, multiset of op kinds)."
+    " Return-cache histories include Sysret/Syscall edges; the"
+    " context-exit cases are also driven from passes run by"
+    " PassManager (begin_module/end_module replacing ir.cfg or editing"
+    " the caller's CFG)."
 )
 ASSUMPTIONS = [
     "ReferenceCache is driven on blocks and symbols attached to a module (block.references is only visible there)",
